@@ -650,7 +650,7 @@ func TestCheck(t *testing.T) {
 	}
 	tStart := time.Now()
 	deadline := tStart.Add(budget)
-	rep.Info["rule"] = "part A: explicit-state BFS on the real hack.HijackClientHelloConn; state key = (stream offset, bytes in buf, expectedLen) = whole private state; from every state: read(r) for every r allowed by the cut set (caller buffer r and r+3), (0,nil) read, EOF, timeout, GetClientHello; oracle = reference verdict (set of admissible outcomes) on the delivered prefix + pass-through of (n, err, bytes) + stability of the slice handed out. part A2: all 2^(n-1) segmentations of short streams on fresh objects. part B: real TLS clients through the wrapper into a real tls.Server and the real proxyserver, first flight cut at every position (thorough: every pair). distinct_nontrivial = stream feature signatures (type/version/declared length/bytes present/trailing/cut set) whose search met >= 2 reference verdict classes, plus distinct handshake segmentations actually observed at the wrapper"
+	rep.Info["rule"] = "part A: explicit-state BFS on the real hack.HijackClientHelloConn; state key = (stream offset, bytes in buf, expectedLen) = whole private state; from every state: read(r) for every r allowed by the cut set (caller buffer r and r+3), (0,nil) read, EOF, timeout, GetClientHello; oracle = reference verdict (set of admissible outcomes) on the delivered prefix + pass-through of (n, err, bytes) + stability of the slice handed out. part A2: all 2^(n-1) segmentations of short streams on fresh objects. part B: real TLS clients through the wrapper into a real tls.Server and the real proxyserver, first flight cut at every position (thorough: every pair). distinct_nontrivial = stream feature signatures (type/version/declared length/bytes present/trailing/cut set) whose search met >= 2 reference verdict classes, plus distinct handshake cut-feature signatures (seam, client, where the cuts fall: header byte, hello body by power of two, last byte, record boundary, offset into the following record)"
 	rep.Assume(
 		"the private state of hack.HijackClientHelloConn is (wrapped conn, buf, expectedLen, VerboseLogFunc); checked by reflection at start-up, a new field is a harness error",
 		"a bytes.Buffer that was only written to and truncated behaves as a function of its contents (capacity is not observable through the wrapper)",
